@@ -10,6 +10,7 @@ EXPLANATION = (
     "integer read from the input (Vec::with_capacity / vec![_; n]) is dominated by an upper-bound test of that integer (or of a value derived from it "
     "by + and *) whose `too large` arm does not reach the allocation; slice bounds are decided by the BOUNDS obligations when that engine is enabled; "
     "(3) RECUR — self-recursive decoders carry a depth bound. Bit-exact equality of decode(encode(v)) is not decided."
+    " C25.5: per WalRecord kind the encoder writes its named fixed-width fields in the order the decoder assigns them."
 )
 
 WALREC = "nervusdb_storage::wal::WalRecord"
